@@ -56,6 +56,29 @@ class FaultyFile(io.RawIOBase):
         return bytes(self.image)
 
 
+class DuckFile:
+    """The same device behind a plain object with write/flush/close (no io base class): what a socket wrapper, an upload
+    stream or a test double looks like. A short write of such an object is as legal as one of a raw file."""
+
+    def __init__(self, *a, **k):
+        self._dev = FaultyFile(*a, **k)
+
+    def write(self, b):
+        return self._dev.write(b)
+
+    def flush(self):
+        self._dev.flush()
+
+    def close(self):
+        pass
+
+    def getvalue(self):
+        return self._dev.getvalue()
+
+    calls = property(lambda self: self._dev.calls)
+    failed = property(lambda self: self._dev.failed)
+
+
 class ReadOnly(io.RawIOBase):
     """Non-peekable raw reader over bytes exposing only read/readinto (for sniffing paths)."""
 
